@@ -15,4 +15,15 @@ ASSUMPTIONS = ["virtual time: the delay source is asked for >= 120 ms; that a re
 
 
 def gen(rng, tier, info):
-    return [vlib.pcase(pc) for pc in initgen.init_cases(rng, tier, info)]
+    pcs = initgen.init_cases(rng, tier, info)
+    cases = [vlib.pcase(pc) for pc in pcs]
+    # the k-th Interface / reset-pin call of init fails: init must report it (no model may swallow an error and
+    # hand out a display whose controller missed a command)
+    for pc in pcs[:: max(1, len(pcs) // (250 if tier == "quick" else 2500))]:
+        if "unsupported" in pc["tags"]:
+            continue
+        q = dict(pc)
+        q["init_fail"] = rng.range(0, 75)
+        q["tags"] = ["init-fault"]
+        cases.append(vlib.pcase(q))
+    return cases
